@@ -176,7 +176,9 @@ def contexts(rep, tier):
     rep.bounded.append(dict(kind='validators embedded at several positions of a hint (root, container item, member of a nested union, mapping value): captured checker vs meaning, each for all objects', hints=len(T)))
 
 GUARDED = ['AND(IS(nonempty), IS(firstpos))', 'AND(IS(nonempty), NOT(IS(firstpos)))', 'AND(IS(nonempty), OR(IS(firstpos), ISEQ(5)))', 'OR(NOT(IS(nonempty)), IS(firstpos))',
-           'AND(IS(nonempty), NOT(NOT(IS(firstpos))))', "AND(AND(IS(nonempty), ISATTR('__class__', NOT(ISEQ(5)))), NOT(IS(firstpos)))", 'NOT(OR(NOT(IS(nonempty)), IS(firstpos)))']
+           'AND(IS(nonempty), NOT(NOT(IS(firstpos))))', "AND(AND(IS(nonempty), ISATTR('__class__', NOT(ISEQ(5)))), NOT(IS(firstpos)))", 'NOT(OR(NOT(IS(nonempty)), IS(firstpos)))',
+           # a disjunction whose second operand is only defined when the first FAILS, inside a conjunction that rejects for another reason
+           'AND(OR(NOT(IS(nonempty)), IS(firstpos)), ISEQ(5))', 'AND(ISEQ(5), OR(NOT(IS(nonempty)), IS(firstpos)))', 'NOT(AND(OR(NOT(IS(nonempty)), IS(firstpos)), NOT(ISEQ(5))))']
 def diagnosis(rep):
     """bounded (NOT counted as proved): "the verdict reported in the violation message": for composite validators whose later operand is only
     defined behind an earlier one (short-circuit meaning of & | ~), the rejection of an object is REPORTED (a violation with a message) - the
